@@ -137,3 +137,101 @@ Section Seq.
         else (hit_of x, res_class x)
     end.
 End Seq.
+
+(** * What the context hands out to handlers (round 3, seeded change C20-g)
+
+    [C.RelRoute()] is the one accessor of [C] that returns a slice.  The
+    deployed code returns a COPY of [route.routes[routePos:]]; an accessor
+    that returned the sub-slice itself would let a handler rewrite - in place,
+    or by [append] on a shortened sub-slice with spare capacity - the very
+    segments every later [Router] looks up.  The translator re-reads, for
+    every exported accessor of [C] with a slice or map result, whether the
+    result is freshly allocated ([gen_ctx_accessors], Gen/AriesSkel.v). *)
+Inductive acc_kind :=
+| AccFresh                       (* make + copy: the caller owns what it gets *)
+| AccAlias                       (* a field or sub-slice of the context's own state *)
+| AccUnknown (text : String.string).
+
+(** What a handler does to the slice it was handed: any function of the
+    remaining segments that keeps their number (writes within the slice and
+    its capacity cannot change the length of [route.routes]). *)
+Definition hwrite := list str -> list str.
+
+Definition apply_write (a : acc_kind) (w : option hwrite) (c : ctx) : ctx :=
+  match a, w with
+  | AccAlias, Some f =>
+      let tail := skipn (c_pos c) (c_routes c) in
+      let tail' := f tail in
+      if Nat.eqb (length tail') (length tail)
+      then Ctx (firstn (c_pos c) (c_routes c) ++ tail') (c_pos c) (c_isdir c) (c_method c)
+      else c
+  | _, _ => c
+  end.
+
+(** two concrete handlers: overwrite every remaining segment with [s];
+    [append(rr[:1], s)] (writes the second remaining segment when there is one) *)
+Definition w_fill (s : str) : hwrite := map (fun _ => s).
+Definition w_append1 (s : str) : hwrite :=
+  fun l => match l with x :: _ :: r => x :: s :: r | _ => l end.
+
+Section SeqW.
+  Variables (disp meth : rcond).
+  Variable le : list (N * N).
+  Variable acc : acc_kind.
+  Variable lw : N -> option hwrite.       (* what handler [h] writes to the RelRoute it was handed *)
+
+  (** [serve_ctx] with handlers that write: a leaf writes and returns; a
+      handler that is another router writes and then delegates. *)
+  Fixpoint serve_ctx_w (w : rwrap) (fuel : nat) (rs : list router) (i : nat) (c : ctx) : sres * ctx :=
+    match fuel with
+    | O => (r_stuck, c)
+    | S k =>
+        match nth_error rs i with
+        | None => (r_stuck, c)
+        | Some r =>
+            let go h c' :=
+              let c'' := apply_write acc (lw h) c' in
+              if (1000 <=? h)%N then serve_ctx_w w k rs (N.to_nat (h - 1000)) c''
+              else ((Z.of_N h, rel c', leaf_res le h), c'') in
+            let body :=
+              match router_serve_with disp meth r c with
+              | OIndex h c' => go h c'
+              | ODefault h c' => go h c'
+              | ONode h c' => go h c'
+              | OMiss => (((-1)%Z, [], 1%N), miss_ctx r c)
+              | OBadMethod => (((-1)%Z, [], 2%N), miss_ctx r c)
+              | OPanic => (((-1)%Z, [], 3%N), c)
+              | OStuck => (r_stuck, c)
+              end in
+            match w with
+            | RWRestoreOnMiss =>
+                if is_miss (fst body) then (fst body, set_pos (snd body) (c_pos c)) else body
+            | RWPlain => body
+            | RWUnknown _ => (r_stuck, c)
+            end
+        end
+    end.
+
+  Fixpoint serve_seq_w (w : rwrap) (fuel : nat) (rs : list router) (is : list nat) (c : ctx)
+    : list (Z * str) * N :=
+    match is with
+    | [] => ([], 1%N)
+    | i :: rest =>
+        let '(x, c') := serve_ctx_w w fuel rs i c in
+        if is_miss x then
+          let '(hs, f) := serve_seq_w w fuel rs rest c' in (hit_of x ++ hs, f)
+        else (hit_of x, res_class x)
+    end.
+End SeqW.
+
+Fixpoint acc_of (n : String.string) (l : list (String.string * acc_kind)) : acc_kind :=
+  match l with
+  | [] => AccUnknown n
+  | (k, a) :: r => if String.eqb k n then a else acc_of n r
+  end.
+Module RelName.
+  Import String.
+  Local Open Scope string_scope.
+  Definition v : string := "RelRoute".
+End RelName.
+Definition relroute_name : String.string := RelName.v.
